@@ -15,9 +15,10 @@ type ScriptOpts struct {
 	UniqueID    bool  // second column is a per-position id (rows never repeat); else rows are [key] only... see Width
 	Payloads    []int // if non-empty (and !UniqueID): second column values
 	Watermarks  bool
-	RecTimes    []int // if set, event times used for records (default Times)
-	AllowLate   bool  // records at or below the last watermark allowed
-	EqualWM     bool  // repeated equal watermark allowed
+	RecTimes    []int             // if set, event times used for records (default Times)
+	AllowLate   bool              // records at or below the last watermark allowed
+	EqualWM     bool              // repeated equal watermark allowed
+	Rows        [][]octosql.Value // if set: the record rows (Keys/Payloads ignored)
 }
 
 func keyVal(k int) octosql.Value {
@@ -64,13 +65,19 @@ func GenScripts(o ScriptOpts) [][]Ev {
 				}
 			}
 		}
-		for _, k := range o.Keys {
+		keys := o.Keys
+		if len(o.Rows) > 0 {
+			keys = []int{0}
+		}
+		for _, k := range keys {
 			for _, t := range recTimes {
 				if t != 0 && t <= s.wm && !o.AllowLate {
 					continue
 				}
 				var rows [][]octosql.Value
-				if o.UniqueID {
+				if len(o.Rows) > 0 {
+					rows = o.Rows
+				} else if o.UniqueID {
 					rows = [][]octosql.Value{{keyVal(k), octosql.NewInt(int64(10*len(s.evs) + t))}}
 				} else if len(o.Payloads) > 0 {
 					for _, p := range o.Payloads {
